@@ -4,10 +4,11 @@ import json, os, subprocess
 V = os.path.dirname(os.path.dirname(os.path.abspath(__file__)))
 props = [json.loads(l) for l in open(os.path.join(V, "properties.jsonl"))]
 checks, na = [], []
+integrated = set(open(os.path.join(V, "tools", "integrated.txt")).read().split())
 for p in props:
     pid = p["id"]
     cfgp = os.path.join(V, "harness", pid, "units.json")
-    if os.path.exists(cfgp) and json.load(open(cfgp)).get("manifest"):
+    if pid in integrated and os.path.exists(cfgp) and json.load(open(cfgp)).get("manifest"):
         m = json.load(open(cfgp))["manifest"]
         checks.append({
             "property_id": pid,
